@@ -170,8 +170,10 @@ func judgeE2E(pc podCase, e *e2eOutcome) []finding {
 	}
 	// attribute to the annotation with the unusual value range (device count first), else to the unusual notation
 	unusualRange := func(a annVal) bool { return a.present && a.ref.Valued && rangeTag(a.kind, a.ref) != "in-range" }
+	beyondInt64 := func(a annVal) bool { return unusualRange(a) && strings.HasPrefix(rangeTag(a.kind, a.ref), "ge-2^") }
 	who := portionAnn.tag(false)
 	switch {
+	case beyondInt64(portionAnn):
 	case unusualRange(de):
 		who = de.tag(false)
 	case unusualRange(portionAnn):
@@ -223,7 +225,11 @@ func judgeE2E(pc podCase, e *e2eOutcome) []finding {
 	fits := n <= e2eNodeGPUs && wantPortion.Cmp(ratOne) <= 0
 	if !fits {
 		if e.Bound {
-			add("e2e-places-request-that-cannot-fit", "a request of %d devices x %s does not fit a node with %d GPUs of %d MiB but was placed", n, wantPortion.FloatString(4), e2eNodeGPUs, nodeGPUMemoryMiB)
+			devs := "1"
+			if de.present {
+				devs = de.s
+			}
+			add("e2e-places-request-that-cannot-fit", "a request of %s devices x %s of a GPU does not fit a node with %d GPUs of %d MiB but was placed", devs, wantPortion.FloatString(4), e2eNodeGPUs, nodeGPUMemoryMiB)
 		}
 		return out
 	}
